@@ -379,15 +379,23 @@ impl<'a> Gen<'a> {
             let n = 1 + self.rng.below(3) as usize;
             self.place_disk_faults(&mut threads, &prewarm, n);
         }
+        // hot runs are where narrow windows in memo / fast-path code matter:
+        // give them statement points and the burst strategy more often
+        let strategy = if hot && self.rng.chance(1, 2) {
+            Strategy::Burst(*self.rng.pick(&[12u8, 32, 64]))
+        } else {
+            self.strategy()
+        };
+        let stmt_points = if hot { self.rng.chance(3, 4) } else { self.rng.chance(1, 2) };
         Plan {
             prop: "C20".into(),
             seed,
             threads,
             prewarm,
-            strategy: self.strategy(),
+            strategy,
             read_yield: *self.rng.pick(&[0u32, 0, 64, 512, 1500]),
             schedule: None,
-            stmt_points: self.rng.chance(1, 2),
+            stmt_points,
         }
     }
 
